@@ -431,5 +431,5 @@ func TestC12(t *testing.T) {
 	if r.Replays() {
 		return
 	}
-	core.Rapid(r, "history", r.Pick(500, 25000), func(t *rapid.T) c12Case { return genHistory(t, 6) }, wrap)
+	core.Rapid(r, "history", r.Pick(500, 60000), func(t *rapid.T) c12Case { return genHistory(t, 6) }, wrap)
 }
